@@ -13,9 +13,10 @@ MC           : Resolver_MC - a reference resolver (pick any open requirement, ta
 spec -> code : Resolver_Export enumerates the bounded family of worlds; each one is rendered as
                SimpleTree/FakePkg repositories and resolved by the real upgrade / min-install /
                empty-tree resolvers.
-code -> spec : seeded random worlds (<= ~12 packages, slots, five dependency classes, any-of
-               groups with nested all-of, version ranges, weak/strong blockers, cycles, random
-               installed sets, 1-3 targets).
+code -> spec : seeded random worlds (<= ~12 packages in a main repository and an overlay, slots, five
+               dependency classes, any-of groups with nested all-of, version ranges over multi-digit /
+               multi-component versions, weak/strong blockers (also aimed at installed packages of
+               multi-slot names), cycles, random installed sets, 1-3 targets).
 Every run is judged by Resolver_Trace (clauses Target, Closure_<class>, SlotUnique, Blocker,
 NoCrash, Deterministic [C16], Upgrade_*/Reuse_* [C16]).
 In addition every run records the history of plan_state operations the resolver performed
@@ -35,6 +36,11 @@ from pylib.common import rng, use_repo
 CLASSES = ["depend", "bdepend", "rdepend", "idepend", "pdepend"]
 CAT = "dev-a"
 KINDS = ("upgrade", "min", "empty")
+SRC_REPOS = ("src", "ovl")  # main repository, overlay (in the order they are handed to the resolver)
+
+
+def ver_str(v):
+    return ".".join(str(x) for x in v)
 
 
 # --------------------------------------------------------------------------------------
@@ -45,7 +51,7 @@ def atom_str(a):
     if a["op"] == "any":
         s += f"{CAT}/{a['key']}"
     else:
-        s += f"{a['op']}{CAT}/{a['key']}-{a['ver']}"
+        s += f"{a['op']}{CAT}/{a['key']}-{ver_str(a['ver'])}"
     if a["slot"] != "*":
         s += ":" + a["slot"]
     return s
@@ -68,7 +74,7 @@ def dep_str(items):
 
 
 def pid(p):
-    return f"{p['repo']}:{p['key']}-{p['ver']}:{p['slot']}"
+    return f"{p['repo']}:{p['key']}-{ver_str(p['ver'])}:{p['slot']}"
 
 
 def norm_world(world):
@@ -103,13 +109,13 @@ class Env:
         self.objs = {}  # spec id -> obj
         self.keep = []
         self.trees = {}
-        for repo in ("src", "vdb"):
+        for repo in SRC_REPOS + ("vdb",):
             cpvs, meta = {}, {}
             for p in world["pkgs"]:
                 if p["repo"] != repo:
                     continue
-                cpvs.setdefault(CAT, {}).setdefault(p["key"], []).append(str(p["ver"]))
-                meta[(CAT, p["key"], str(p["ver"]))] = p
+                cpvs.setdefault(CAT, {}).setdefault(p["key"], []).append(ver_str(p["ver"]))
+                meta[(CAT, p["key"], ver_str(p["ver"]))] = p
             holder, cache = {}, {}
 
             def mk(cat, pkg, ver, meta=meta, holder=holder, cache=cache):
@@ -133,7 +139,9 @@ class Env:
     def resolver(self, kind):
         from pkgcore.ebuild import resolver
 
-        vdb, src = [self.trees["vdb"]], [self.trees["src"]]
+        vdb = [self.trees["vdb"]]
+        # overlays only when the world has packages in them (a plain setup has one source repository)
+        src = [self.trees[r] for r in SRC_REPOS if r == "src" or any(p["repo"] == r for p in self.world["pkgs"])]
         if kind == "upgrade":
             return resolver.upgrade_resolver(vdb, src)
         if kind == "min":
@@ -346,50 +354,98 @@ def run_once(world, kind, record=True):
 # --------------------------------------------------------------------------------------
 # generators (code -> spec): seeded random worlds inside the property's domain
 # --------------------------------------------------------------------------------------
-def _atom(key, op="any", ver=0, slot="*", blk="none"):
-    return dict(key=key, op=op, ver=ver if op != "any" else 0, slot=slot, blk=blk)
+def _atom(key, op="any", ver=(), slot="*", blk="none"):
+    return dict(key=key, op=op, ver=list(ver) if op != "any" else [], slot=slot, blk=blk)
+
+
+# version pools: plain, digit-count changes (9 -> 10), later components (1.9 -> 1.10), mixed lengths
+VERSION_POOLS = (
+    ([1], [2], [3]),
+    ([1], [2], [3]),
+    ([9], [10], [11]),
+    ([1, 9], [1, 10], [2, 0]),
+    ([2, 9], [2, 10], [2, 11]),
+    ([1], [1, 1], [1, 10]),
+)
+STYLES = ("robust", "friendly", "hostile", "blocky")
 
 
 def gen_world(r, style):
     """style: 'robust' (plain names, consistent requirements: mostly inside C16's judged domain),
-    'friendly' (some version ranges / slots / blockers), 'hostile' (anything goes)."""
-    nkeys = r.randint(2, 6 if style != "hostile" else 5)
-    keys = list("abcdefgh"[:nkeys])
+    'friendly' (some version ranges / slots / blockers), 'hostile' (anything goes),
+    'blocky' (many installed packages, names with several slots, blockers aimed at what is installed).
+    Every style: versions from pools with multi-digit / multi-component members, source packages
+    spread over the main repository and an overlay."""
+    nkeys = r.randint(2, 6 if style in ("robust", "friendly") else 5 if style == "hostile" else 4)
+    allkeys = "abcdefgh"
+    keys = list(allkeys[:nkeys])
     ghost = "z"  # a name no package has (blockers that hit nothing)
+    pool = {k: r.choice(VERSION_POOLS) for k in allkeys + ghost}
+    p_multi = {"robust": 0.15, "friendly": 0.3, "hostile": 0.3, "blocky": 0.6}[style]
+    p_inst = {"robust": 0.5, "friendly": 0.5, "hostile": 0.5, "blocky": 0.85}[style]
     pkgs = []
     maxp = 12
+    multi = {}
     for k in keys:
-        vers = sorted(r.sample([1, 2, 3], r.choice([1, 1, 2, 2, 3])))
-        multislot = r.random() < (0.15 if style == "robust" else 0.3)
-        for v in vers:
+        idx = sorted(r.sample([0, 1, 2], r.choice([1, 1, 2, 2, 3]) if style != "blocky" else r.choice([2, 2, 3])))
+        multi[k] = r.random() < p_multi
+
+        def slot_of(i, k=k):
+            return str(i + 1) if multi[k] and (i > 0) and r.random() < 0.8 else "0"
+
+        for i in idx:
             if len(pkgs) >= maxp:
                 break
-            slot = str(v) if multislot and r.random() < 0.7 else "0"
-            pkgs.append(dict(repo="src", key=k, ver=v, slot=slot))
+            repo = "ovl" if r.random() < 0.25 else "src"
+            slot = slot_of(i)
+            pkgs.append(dict(repo=repo, key=k, ver=list(pool[k][i]), slot=slot))
+            if style in ("friendly", "hostile") and r.random() < 0.08 and len(pkgs) < maxp:
+                # the same version in both repositories (an overlay overriding the main tree)
+                pkgs.append(dict(repo="ovl" if repo == "src" else "src", key=k, ver=list(pool[k][i]), slot=slot))
     by_key = {}
     for p in pkgs:
         by_key.setdefault(p["key"], []).append(p)
+    installed = {}
     for k in keys:
         if k not in by_key or len(pkgs) >= maxp + 3:
             continue
-        if r.random() < 0.5:
-            v = r.choice([1, 2, 3])
+        if r.random() < p_inst:
+            i = r.choice([0, 0, 1, 2]) if style == "blocky" else r.choice([0, 1, 2])
+            v = list(pool[k][i])
             same = [p for p in by_key[k] if p["ver"] == v]
             if same:
                 slot = same[0]["slot"]
                 if style == "hostile" and r.random() < 0.08:
                     slot = "9"  # slot moved since it was installed
             else:
-                slot = r.choice(["0", str(v)]) if any(p["slot"] != "0" for p in by_key[k]) else "0"
+                slot = str(i + 1) if multi[k] and i > 0 else "0"
             pkgs.append(dict(repo="vdb", key=k, ver=v, slot=slot))
+            installed.setdefault(k, []).append(i)
             if r.random() < 0.25:
-                v2 = r.choice([x for x in [1, 2, 3] if x != v])
+                i2 = r.choice([x for x in [0, 1, 2] if x != i])
+                v2 = list(pool[k][i2])
                 same2 = [p for p in by_key[k] if p["ver"] == v2]
-                s2 = same2[0]["slot"] if same2 else str(v2)
+                s2 = same2[0]["slot"] if same2 else str(i2 + 1)
                 if s2 != slot:
                     pkgs.append(dict(repo="vdb", key=k, ver=v2, slot=s2))
+                    installed[k].append(i2)
     order = {k: i for i, k in enumerate(keys)}
     key_atom = {}  # robust style: one fixed requirement shape per name
+
+    def pick_ver(k):
+        return r.choice(pool[k])
+
+    def blocker_on_installed(blk):
+        k = r.choice(sorted(installed))
+        i = r.choice(installed[k])
+        x = r.random()
+        if x < 0.5 and i < 2:
+            return _atom(k, "<", pool[k][i + 1], blk=blk)  # everything below the next version
+        if x < 0.7:
+            return _atom(k, "<=", pool[k][i], blk=blk)
+        if x < 0.85:
+            return _atom(k, "=", pool[k][i], blk=blk)
+        return _atom(k, blk=blk)
 
     def ratom(owner, blk="none"):
         if style == "robust":
@@ -402,49 +458,56 @@ def gen_world(r, style):
                 if x < 0.7:
                     key_atom[k] = _atom(k)
                 elif x < 0.85:
-                    key_atom[k] = _atom(k, ">=", 1)
+                    key_atom[k] = _atom(k, ">=", pool[k][0])
                 else:
-                    key_atom[k] = _atom(k, r.choice([">=", "<=", "<", ">", "="]), r.choice([1, 2, 3]))
+                    key_atom[k] = _atom(k, r.choice([">=", "<=", "<", ">", "="]), pick_ver(k))
             return dict(key_atom[k])
+        if style == "blocky" and blk != "none" and installed and r.random() < 0.8:
+            return blocker_on_installed(blk)
         k = r.choice(keys)
-        if style == "friendly":
+        if style in ("friendly", "blocky"):
             later = [x for x in keys if order[x] > order[owner]]
             if later and r.random() < 0.6:
                 k = r.choice(later)
-            if blk != "none" and r.random() < 0.5:
+            if blk != "none" and r.random() < (0.5 if style == "friendly" else 0.1):
                 k = ghost
             op = r.choice(["any"] * 6 + [">=", ">=", "<", "=", "<=", ">"])
             slot = r.choice(["*"] * 8 + ["0", "1", "2"])
         else:
             op = r.choice(["any", "any", "any", ">=", "<", "=", "<=", ">"])
             slot = r.choice(["*"] * 5 + ["0", "1", "2"])
-        return _atom(k, op, r.choice([1, 2, 3]), slot, blk)
+        if blk == "none" and style != "blocky" and r.random() < 0.04:
+            k = r.choice(allkeys)  # possibly a name the repositories do not have at all
+        return _atom(k, op, pick_ver(k), slot, blk)
 
-    dens = {"robust": 0.8, "friendly": 0.9, "hostile": 1.0}[style]
+    dens = {"robust": 0.8, "friendly": 0.9, "hostile": 1.0, "blocky": 0.8}[style]
     prob = {"rdepend": 0.5, "depend": 0.3, "bdepend": 0.15, "idepend": 0.15, "pdepend": 0.15}
+    p_block = 0.12 if style != "blocky" else 0.4
     for p in pkgs:
         for c in CLASSES:
             items = []
             while r.random() < prob[c] * dens and len(items) < 3:
                 x = r.random()
                 o = p["key"]
-                if x < 0.6:
+                if x < p_block:
+                    items.append([[ratom(o, r.choice(["weak", "weak", "strong"]))]])
+                elif x < p_block + 0.6 * (1 - p_block):
                     items.append([[ratom(o)]])
-                elif x < 0.8:
+                elif x < p_block + 0.85 * (1 - p_block):
                     items.append([[ratom(o)], [ratom(o)]])
-                elif x < 0.88:
-                    items.append([[ratom(o), ratom(o)], [ratom(o)]])
                 else:
-                    items.append([[ratom(o, r.choice(["weak", "strong"]))]])
+                    items.append([[ratom(o, "none"), ratom(o)], [ratom(o)]])
             p[c] = items
     targets = []
     for _ in range(r.choice([1, 1, 2, 3])):
         if style == "robust":
             k = r.choice(keys)
             targets.append(dict(key_atom.get(k) or _atom(k)))
+        elif style == "hostile":
+            targets.append(ratom(keys[0]))
         else:
-            targets.append(ratom(keys[0]) if style == "hostile" else _atom(r.choice(keys), r.choice(["any"] * 4 + [">=", "<"]),
-                                                                         r.choice([1, 2, 3])))
+            k = r.choice(keys)
+            targets.append(_atom(k, r.choice(["any"] * 4 + [">=", "<"]), pick_ver(k)))
     return norm_world(dict(pkgs=pkgs, targets=targets))
 
 
@@ -554,21 +617,27 @@ def exported_worlds(ck, n_sample):
     cases = ck.export("Resolver_Export", cfg_text=f'CONSTANT Level = "{level}"\n', timeout=1800,
                       label=f"Export+Laws:Resolver_Export/Resolver_Laws Level={level} (judge = oracle on every final set; "
                             "Robust within Resolvable; match laws)")
+    for c in cases:
+        if any(p["repo"] not in SRC_REPOS + ("vdb",) for p in c["pkgs"]):
+            raise tlc.MachineryError(f"exported world uses an unknown repository: {c}")
     cases.sort(key=lambda c: repr(c))
-    if n_sample and n_sample < len(cases):
+    main = [c for c in cases if c["fam"] == "main"]
+    special = [c for c in cases if c["fam"] != "main"]  # blocker / versions parts: always complete
+    if n_sample and n_sample < len(main):
         r_ = rng(1515)
-        cases = r_.sample(cases, n_sample)
-    return [norm_world(c) for c in cases]
+        main = r_.sample(main, n_sample)
+    return [norm_world(c) for c in special + main]
 
 
 def nontrivial(ck, tag, world, kind, o1):
     """rule: distinct (world, strategy) whose resolution succeeded with at least one merged package"""
-    if o1["ok"] and any(op["p"].startswith("src:") for op in o1["ops"]):
+    if o1["ok"] and any(not op["p"].startswith("vdb:") for op in o1["ops"]):
         ck.nontriv((tag, repr(describe(world)), kind))
 
 
-def campaign(ck, want, plan_trace, sizes, styles=("robust", "friendly", "hostile"), seed=15):
-    """spec -> code (exported family) and code -> spec (random worlds); returns policy statistics"""
+def campaign(ck, want, plan_trace, sizes, styles=STYLES, seed=15, tail=None):
+    """spec -> code (exported family) and code -> spec (random worlds); returns policy statistics.
+    tail(batch): adds further runs to the last batch (judged in the same TLC run)"""
     n_export, n_random, chunk = sizes
     stats = dict(judged=0, outside=0, ok=0, failed=0, crashed=0)
 
@@ -600,6 +669,8 @@ def campaign(ck, want, plan_trace, sizes, styles=("robust", "friendly", "hostile
     for n in range(n_random):
         style = styles[n % len(styles)]
         one("r", gen_world(r_, style), n, dict(direction="code->spec", style=style))
+    if tail:
+        tail(batch)
     flush(batch, f"batch-{nb}")
     return stats
 
@@ -619,7 +690,8 @@ def replay(ck, want):
 ASSUMPTIONS = [
     "repositories are SimpleTree/FakePkg (EAPI 8, no USE conditionals, category dev-a), one package object per cpv and "
     "repository as instance-caching repositories give; installed packages are not `built`",
-    "versions are small integers (version order is C01's subject), blockers only as top-level items",
+    "versions are dot-separated numbers without leading zeros, suffixes or revisions (the full version order is "
+    "C01's subject); blockers only as top-level items; source repositories: a main tree and an overlay",
     "'planned package' whose dependencies/blockers must hold = source package merged by the plan; FINAL = installed "
     "set after carrying out the add/replace operations of resolver.state.iter_ops(True)",
     "plan_state operations are observed by wrapping the op classes' apply()/plan_state.backtrack at run time",
@@ -630,14 +702,14 @@ def run(ck):
     use_repo()
     want = set(PLAN_CLAUSES_OF) | {"PS"}
     ck.rule = ("one evaluation = one resolver construction + add_atoms(targets) on fresh repositories, run twice; worlds: "
-               "members of the TLC-exported bounded family and seeded random worlds (robust/friendly/hostile styles) x "
+               "members of the TLC-exported bounded family and seeded random worlds (robust/friendly/hostile/blocky styles) x "
                "{upgrade, min-install, empty-tree}; non-trivial = distinct (world, strategy) whose resolution succeeded "
                "and merged at least one source package")
     ck.assumptions = ASSUMPTIONS
     if ck.replay_case:
         return replay(ck, want)
     model_check(ck)
-    stats = campaign(ck, want, plan_trace=True, sizes=ck.pick((40, 60, 100000), (1200, 1200, 1800)))
+    stats = campaign(ck, want, plan_trace=True, sizes=ck.pick((20, 56, 100000), (1200, 1400, 1800)))
     ck.extra["runs"] = stats
     ck.extra["plan_state_calls_outside_C17_domain"] = stats["outside"]
     if stats["ok"] == 0 and not ck.violations:
